@@ -357,28 +357,35 @@ def main(argv=None):
         # ---- failures: known findings vs new violations (shrink new ones)
         violations = []
         known_hit = {}
+        pending = []
         for name, st in agg["stats"].items():
             for sig, slot in sorted(st.failures.items()):
                 if sig in known:
                     known_hit[sig] = known_hit.get(sig, 0) + slot["count"]
                     continue
-                case, detail = slot["case"], slot["detail"]
                 t = by_name.get(name)
-                if t is not None and t.kind == "hyp" and (name, sig) in fail_shard:
+                ar = None
+                if t is not None and t.kind == "hyp" and (name, sig) in fail_shard and len(pending) < 12:
                     ns = max(1, min(t.shards or args.jobs, t.budget[tier]))
                     job = (pid, name, tier, seed, fail_shard[(name, sig)], ns, 0, "shrink", sig)
-                    try:
-                        r = pool.apply_async(run_shard, (job,)).get(SHRINK_TIMEOUT[tier])
-                        if r.get("shrunk") and "case" in r["shrunk"]:
-                            sc = r["shrunk"]["case"]
-                            if len(core.canon(sc)) <= len(core.canon(case)):
-                                case, detail = sc, r["shrunk"]["detail"]
-                    except multiprocessing.TimeoutError:
-                        pass
-                    except Exception:  # noqa: BLE001
-                        pass
-                path = write_replay(pid, name, sig, case, detail)
-                violations.append((name, sig, slot["count"], detail, path))
+                    ar = pool.apply_async(run_shard, (job,))
+                pending.append((name, sig, slot, ar))
+        shrink_deadline = time.time() + SHRINK_TIMEOUT[tier]
+        for name, sig, slot, ar in pending:
+            case, detail = slot["case"], slot["detail"]
+            if ar is not None:
+                try:
+                    r = ar.get(max(0.1, shrink_deadline - time.time()))
+                    if r.get("shrunk") and "case" in r["shrunk"]:
+                        sc = r["shrunk"]["case"]
+                        if len(core.canon(sc)) <= len(core.canon(case)):
+                            case, detail = sc, r["shrunk"]["detail"]
+                except multiprocessing.TimeoutError:
+                    pass
+                except Exception:  # noqa: BLE001
+                    pass
+            path = write_replay(pid, name, sig, case, detail)
+            violations.append((name, sig, slot["count"], detail, path))
     finally:
         pool.terminate()
         pool.join()
@@ -444,16 +451,15 @@ def main(argv=None):
         print(f"  target {name}: {per_target[name]}")
     for sig, n in known_hit.items():
         print(f"KNOWN-FINDING: property={pid} {known[sig]} (sig={sig}, {n} cases excluded)")
+    for name, sig, n, detail, path in violations:
+        print(f"  failure target={name} sig={sig} count={n} :: {detail[:300]}")
+        if not errors:
+            print(f"VIOLATION property={pid} replay={path}")
     if errors:
         for e in errors:
             print("HARNESS-ERROR:", e)
         return 2
-    if violations:
-        for name, sig, n, detail, path in violations:
-            print(f"  failure target={name} sig={sig} count={n} :: {detail}")
-            print(f"VIOLATION property={pid} replay={path}")
-        return 1
-    return 0
+    return 1 if violations else 0
 
 
 def selftest():
